@@ -141,3 +141,19 @@ def observed_ops(rf, sp, kind, samples=True, readonly=True, post=True, cap=None,
     for k in range(outputs):
         ops.append(["output"])
     return ops
+
+
+def warmup_episode(rw, scripts, kind=None, obj=1):
+    """an unrelated short simulation executed earlier in the same process lifetime (state that survives in static or
+    module-level variables of the library shows up in whatever runs next). Appends its script to `scripts`."""
+    k = kind or rw.choice(KINDS)
+    p = dict(n_species=(1, 3), n_reactions=(0, 3), max_cells=6, graph_nodes=(1, 4), graph_edges=(0, 4), n_mol=(1.0, 50.0))
+    if rw.chance(0.6):
+        p["p_graph"] = 0.0      # grids: the engine keeps per-shape / per-volume tables
+    e = make_script_entry(rw.sub("s"), rw.sub("u"), rw.sub("k"), k, p, {"steps": (2, 10), "p_seed": 1.0}, rich=rw.chance(0.3))
+    scripts.append(e)
+    ending = rw.wchoice([("finalize", 3), ("abandon", 1)])
+    ops = [["poison", rw.choice([0, 0x55, 0xff])], ["setup"], ["iterate_n", rw.randint(1, 6)]]
+    if ending == "finalize":
+        ops.append(["finalize"])
+    return {"obj": obj, "new": True, "kind": k, "via": "LibRDEngine", "script": len(scripts) - 1, "ops": ops}
